@@ -22,7 +22,7 @@ type c12Op struct {
 	Upper    bool   `json:"upper,omitempty"`
 	Class    uint16 `json:"class"`
 	Resolver string `json:"resolver"`
-	Opt      int    `json:"opt"` // 0 none, 1 OPT, 2 OPT+DO, 3 OPT+ECS
+	Opt      int    `json:"opt"` // 0 none, 1 OPT, 2 OPT+DO, 3 OPT+ECS, 4 OPT with EDNS version 1, 5 OPT with cookie and NSID
 	ECS      string `json:"ecs,omitempty"`
 }
 
@@ -47,6 +47,12 @@ func c12Msg(op c12Op) *dns.Msg {
 		o.SetUDPSize(1232)
 		if op.Opt == 2 {
 			o.SetDo()
+		}
+		if op.Opt == 4 {
+			o.SetVersion(1)
+		}
+		if op.Opt == 5 {
+			o.Option = append(o.Option, &dns.EDNS0_COOKIE{Code: dns.EDNS0COOKIE, Cookie: "0123456789abcdef"}, &dns.EDNS0_NSID{Code: dns.EDNS0NSID, Nsid: ""})
 		}
 		if op.Opt == 3 {
 			_, n, _ := net.ParseCIDR(op.ECS)
@@ -102,7 +108,7 @@ func genC12Ops(t *rapid.T) []c12Op {
 			op.Class = rapid.SampledFrom([]uint16{3, 255}).Draw(t, "class")
 		}
 		op.Resolver = rapid.SampledFrom([]string{"10.9.9.9", "192.0.2.9", "2001:db8::9", "198.51.100.1"}).Draw(t, "resolver")
-		op.Opt = rapid.IntRange(0, 3).Draw(t, "opt")
+		op.Opt = rapid.SampledFrom([]int{0, 0, 1, 1, 2, 3, 3, 3, 4, 5}).Draw(t, "opt")
 		if op.Opt == 3 {
 			op.ECS = rapid.SampledFrom([]string{"10.1.0.0/16", "192.0.2.0/24", "198.51.100.0/24", "10.0.0.0/7"}).Draw(t, "ecs")
 		}
@@ -210,9 +216,15 @@ func c12Run(t kit.Fataler, b kit.Backend, lru int, ops []c12Op, record bool) {
 func c12Stale(t kit.Fataler, b kit.Backend, query int, parkAt string, reloadKind string) {
 	installYieldHook()
 	cs := c12Case{Backend: b.String(), LRU: 16, Detail: fmt.Sprintf("stale-insert query=%d park=%s reload=%s", query, parkAt, reloadKind)}
+	// weighted answers are cached only when a WRS timeout is configured: those
+	// questions are run with one, all others without
+	wrsTimeout := int64(0)
+	if kit.StampQueries[query].Name == "multi.example.com." {
+		wrsTimeout = 300
+	}
 	s := kit.NewSched()
 	s.Filter = func(p string) bool { return p == parkAt || strings.HasPrefix(p, "reload.") }
-	w, err := newC05World(b, dnsserver.CacheConfig{Enabled: true, LRUSize: 16}, kit.NewSchedStats(s))
+	w, err := newC05World(b, dnsserver.CacheConfig{Enabled: true, LRUSize: 16, WRSTimeout: wrsTimeout}, kit.NewSchedStats(s))
 	if err != nil {
 		kit.Fail(t, "C12", "setup-error", cs, "setup: %v", err)
 		return
@@ -304,9 +316,6 @@ func TestC12(t *testing.T) {
 					n++
 					if n%kit.NShards() != kit.Shard() {
 						continue
-					}
-					if kit.StampQueries[qi].Name == "multi.example.com." {
-						continue // weighted answers are not cached
 					}
 					c12Stale(t, b, qi, park, kind)
 					kit.Eval()
